@@ -87,7 +87,7 @@ def run(ctx):
         strings = [ctx.replay['case']['text']]
     else:
         strings = chains()
-        strings += [random_string(rng, 2) for _ in range(1200 if ctx.quick else 30000)]
+        strings += [random_string(rng, 2) for _ in range(1200 if ctx.quick else 14000)]
         strings = list(dict.fromkeys(strings))
     cases, meta, skipped, raised = [], [], 0, {}
     for s in strings:
